@@ -5,6 +5,7 @@ import (
 	"github.com/ClickHouse/ch-go/proto"
 	"math"
 	"math/rand/v2"
+	"strings"
 
 	"chgosim/choice"
 	"chgosim/refproto"
@@ -35,6 +36,57 @@ var Maps = []string{
 var Nested = []string{
 	"Array(Array(String))", "Array(Array(UInt64))", "Array(Array(Nullable(String)))", "Array(Array(Array(UInt16)))", "Array(Array(LowCardinality(String)))",
 }
+
+// ServerSpellings: how a server may write a type the library spells differently
+// (parametrised decimals at their precision boundaries, time zones). Used for
+// blocks that travel from the server to the client.
+var ServerSpellings = map[string][]string{
+	"Decimal32":     {"Decimal(1, 0)", "Decimal(9, 2)"},
+	"Decimal64":     {"Decimal(10, 2)", "Decimal(18, 4)"},
+	"Decimal128":    {"Decimal(19, 2)", "Decimal(38, 10)"},
+	"Decimal256":    {"Decimal(39, 10)", "Decimal(76, 20)"},
+	"DateTime":      {"DateTime('UTC')", "DateTime('Europe/Berlin')"},
+	"DateTime64(3)": {"DateTime64(3, 'UTC')", "DateTime64(3, 'Asia/Tokyo')"},
+	"DateTime64(9)": {"DateTime64(9, 'UTC')"},
+}
+
+// ServerSpelling draws the way a server writes type t (often just t), applied to
+// every occurrence of a respellable type inside t.
+func ServerSpelling(c *choice.Stream, t string) string {
+	if !c.Bool("type.serverspelling", 1, 3) || strings.Contains(t, "Tuple(") || strings.Contains(t, "Map(") {
+		// how a bound target compares composite types is result binding, not decoding
+		return t
+	}
+	for _, e := range spellingOrder {
+		if !strings.Contains(t, e) {
+			continue
+		}
+		// whole-word occurrences only: "Decimal32" must not match inside "Decimal32(4)"
+		alts := ServerSpellings[e]
+		alt := alts[c.Draw("type.serverspelling.alt", len(alts))]
+		out, i := "", 0
+		for {
+			j := strings.Index(t[i:], e)
+			if j < 0 {
+				out += t[i:]
+				break
+			}
+			j += i
+			end := j + len(e)
+			boundary := (j == 0 || strings.ContainsRune("(, ", rune(t[j-1]))) && (end == len(t) || strings.ContainsRune("), ", rune(t[end])))
+			if boundary {
+				out += t[i:j] + alt
+			} else {
+				out += t[i:end]
+			}
+			i = end
+		}
+		t = out
+	}
+	return t
+}
+
+var spellingOrder = []string{"Decimal32", "Decimal64", "Decimal128", "Decimal256", "DateTime64(3)", "DateTime64(9)", "DateTime"}
 
 var supported = map[string]bool{}
 
@@ -154,6 +206,8 @@ func randString(r *rand.Rand) string {
 		n = strLens[r.UintN(uint(len(strLens)))]
 		if n > 300 && r.UintN(3) != 0 {
 			n = strLens[r.UintN(8)] // the long ones stay rare
+		} else if n > 300 && r.UintN(40) == 0 {
+			n = []int{65535, 65536, 65537, 100000, 1<<20 + 1}[r.UintN(5)] // and the very long ones rarer still
 		}
 	case 1:
 		n = int(r.UintN(40))
@@ -344,4 +398,14 @@ func DrawRows(c *choice.Stream, label string) int {
 	default:
 		return 250 + c.Draw(label+".l", 400)
 	}
+}
+
+// LibrarySpelling maps a server spelling back to the name the library's column reports.
+func LibrarySpelling(t string) string {
+	for lib, alts := range ServerSpellings {
+		for _, a := range alts {
+			t = strings.ReplaceAll(t, a, lib)
+		}
+	}
+	return t
 }
